@@ -8,16 +8,17 @@ import (
 )
 
 // Value is one of:
-//   *Term            bool / integer / float scalar (possibly symbolic)
-//   string           Go string (always concrete)
-//   *Value  (Ptr)    pointer to a slot (nil pointer = (*Value)(nil))
-//   Struct, Array    aggregates held by value (copied on load/store)
-//   SliceV           Go slice sharing a backing []Value
-//   Iface            interface value (T==nil: nil interface)
-//   *MapV            map (nil map = (*MapV)(nil))
-//   *Closure, *ssa.Function, *ssa.Builtin   function values
-//   Tuple            multi-value
-//   *MapIter, *StrIter  range iterators
+//
+//	*Term            bool / integer / float scalar (possibly symbolic)
+//	string           Go string (always concrete)
+//	*Value  (Ptr)    pointer to a slot (nil pointer = (*Value)(nil))
+//	Struct, Array    aggregates held by value (copied on load/store)
+//	SliceV           Go slice sharing a backing []Value
+//	Iface            interface value (T==nil: nil interface)
+//	*MapV            map (nil map = (*MapV)(nil))
+//	*Closure, *ssa.Function, *ssa.Builtin   function values
+//	Tuple            multi-value
+//	*MapIter, *StrIter  range iterators
 type Value interface{}
 
 type Struct []Value
